@@ -289,6 +289,17 @@ func c05Run(ctx *core.Ctx) {
 			return c05One(ctx, tm, rg, an, &ae, o, ch, pinned)
 		})
 		if ok {
+			// the same model with sparse metadata (no entry for relations without direct assignment): same verdict
+			if sp, changed := sparseMetadata(ref.ToProto(tm.M)); changed {
+				ctx.Trans(1)
+				stm := gen.Tagged{Tag: tm.Tag + " (metadata only for relations with a direct assignment)", M: tm.M}
+				if !c05One(ctx, stm, rg, an, &ae, wgBuild(sp), nil, false) {
+					return true
+				}
+				ctx.Flag("c05:sparse-metadata")
+			}
+		}
+		if ok {
 			ctx.Nontrivial(tm.Tag)
 			if ctx.WantSample() && !an.WellFounded && i%5 == 0 {
 				ctx.Sample(map[string]any{"model": tm.Tag, "well_founded": false, "reasons": an.Reasons})
@@ -324,6 +335,20 @@ func reusePool() []gen.Tagged {
 	tl := gen.TuplesetListModels()
 	for i := 0; i < len(tl); i += len(tl)/8 + 1 {
 		pool = append(pool, tl[i])
+	}
+	// twins that disagree on whether a parent type has the computed relation: a rejected draft and its corrected version
+	// (a builder that remembers the draft's answer - positive or negative - gives the twin a wrong verdict)
+	for _, tm := range tl {
+		if strings.HasSuffix(tm.Tag, "p: [doc bare]") || strings.HasSuffix(tm.Tag, "p: [bare folder]") {
+			pool = append(pool, tm)
+			fixed := cloneRefModel(tm.M)
+			for ti := range fixed.Types {
+				if fixed.Types[ti].Name == "bare" {
+					fixed.Types[ti].Rels = append(fixed.Types[ti].Rels, ref.Relation{Name: "b", Rw: ref.T(), Restr: []ref.Restriction{{Type: "group"}}})
+				}
+			}
+			pool = append(pool, gen.Tagged{Tag: tm.Tag + " (corrected: bare has b)", M: fixed})
+		}
 	}
 	return pool
 }
@@ -442,6 +467,17 @@ func c06Run(ctx *core.Ctx) {
 			}
 		}
 		ctx.Flag("c06:type-permutations")
+		// sparse metadata: no entry for relations without direct assignment - same result
+		if sp, changed := sparseMetadata(pm); changed {
+			ctx.Trans(1)
+			if d := wgDump(rg, wgBuild(sp)); d != first {
+				c := wgCaseOf(tm, nil, false)
+				c.Extra = "sparse-metadata"
+				ctx.Violation("result-depends-on-optional-metadata", fmt.Sprintf("%s: dropping the (optional) metadata entries of relations without direct assignment changes the result", tm.Tag), c, first, d)
+				return true
+			}
+			ctx.Flag("c06:sparse-metadata")
+		}
 		// permutations of commutative operands: relation weights must not change
 		if strings.HasPrefix(first, "accepted") {
 			base := relWeights(rg, wgBuild(pm))
@@ -608,7 +644,7 @@ func init() {
 		Technique: "exhaustive exploration of map-iteration schedules (DFS start orders and inner maps) x bounded exhaustive model enumeration against a reference well-foundedness predicate",
 		Run:       c05Run,
 		Finish: func(r *core.Result) error {
-			for _, f := range []string{"map-sites-reached", "c05:accepted", "c05:rejected", "c05:clause:a", "c05:clause:b", "c05:clause:c", "c05:clause:d", "c05:clause:e", "c05:builder-reuse"} {
+			for _, f := range []string{"map-sites-reached", "c05:accepted", "c05:rejected", "c05:clause:a", "c05:clause:b", "c05:clause:c", "c05:clause:d", "c05:clause:e", "c05:builder-reuse", "c05:sparse-metadata"} {
 				if !r.Flags[f] {
 					return fmt.Errorf("C05: guard %q never exercised", f)
 				}
